@@ -4,6 +4,7 @@ package signature
 
 import (
 	"context"
+	"strings"
 
 	"github.com/buildkite/go-pipeline"
 )
@@ -24,10 +25,20 @@ func vpH_c06_envnames() {
 	class := "A_a" + vpConstChars("*sign.go")
 	name := vpStr(1, class) + vpStrUpTo(2, class)
 	val := vpStrUpTo(1, "x-y")
-	shadow := vpBool()
 	step := &pipeline.CommandStep{Command: "c"}
-	if shadow {
+	shadow := false
+	switch vpInt(0, 3) {
+	case 1:
+		shadow = true
 		step.Env = map[string]string{name: "s"}
+	case 2: // a step variable that differs in letter case is another variable: no shadowing
+		other := strings.ToUpper(name)
+		vpAssume(other != name)
+		step.Env = map[string]string{other: "s"}
+	case 3:
+		other := strings.ToLower(name)
+		vpAssume(other != name)
+		step.Env = map[string]string{other: "s"}
 	}
 	penv := map[string]string{name: val}
 	s := vpSigSigner(1)
